@@ -1,6 +1,6 @@
 (* Property C10 — sample result coding. Statements only; proofs live in Proofs/ and Gen/. *)
 From Coq Require Import List NArith ZArith Bool Permutation.
-From PV Require Import Lib.Table Lib.AmmoBytes Lib.AmmoLines Model.AmmoCommon Model.AmmoUri Model.AmmoUripost Model.AmmoRaw Model.AmmoJson Model.ShootAmmo Proofs.ShootAmmoProofs Model.Sample Model.GrpcStatus Model.Shoot Model.ShootEvents Proofs.SampleProofs Proofs.ShootProofs Proofs.ShootEventsProofs Model.ReportQueue Model.ShootRun Proofs.ShootRunProofs Gen.GrpcStatusGen Gen.GrpcStatus_bridge Gen.ConstGen Gen.Const_bridge.
+From PV Require Import Lib.Table Lib.AmmoBytes Lib.AmmoLines Model.AmmoCommon Model.AmmoUri Model.AmmoUripost Model.AmmoRaw Model.AmmoJson Model.ShootAmmo Proofs.ShootAmmoProofs Model.Sample Model.GrpcStatus Model.Shoot Model.ShootEvents Proofs.SampleProofs Proofs.ShootProofs Proofs.ShootEventsProofs Model.ReportQueue Model.ShootRun Proofs.ShootRunProofs Model.ShootEngine Proofs.ShootEngineProofs Gen.GrpcStatusGen Gen.GrpcStatus_bridge Gen.ConstGen Gen.Const_bridge.
 Import ListNotations.
 Local Open Scope N_scope.
 
@@ -466,6 +466,52 @@ Example C10_run_example :
   option_map (@length sample) (run_lines qblocking 1 evs) = Some 4%nat /\
   list_sum (map shot_requests shots) = 4%nat.
 Proof. vm_compute. repeat split. Qed.
+
+(* ---- round 7: the pool run through the engine (Model/ShootEngine.v) ---- *)
+
+(* For every ammo list, every startup schedule length and EVERY trace of a pool run with engine.go's await loop
+   (any number of instances started at any moments, any interleaving of acquiring, shooting, reporting, writing,
+   schedules ending, the provider running dry, the await loop receiving results): what is written or queued is
+   always exactly the samples of the shots that have ended, every fired shot has ended or is in flight, and the
+   aggregator returns only when nothing is in flight, every instance has been awaited and no instance will be
+   started - so the results then hold exactly one sample per fired request, each the one the property asks for. *)
+Theorem C10_engine_one_sample_per_fired_request : forall ammo tostart evs st,
+  erun false (einit ammo tostart) evs = Some st ->
+  a_lines (e_a st) ++ a_sink (e_a st) = flat_map shot_spec (w_reported (e_w st)) /\
+  Permutation (w_fired (e_w st)) (w_reported (e_w st) ++ inflight (w_insts (e_w st))) /\
+  (a_running (e_a st) = false ->
+   inflight (w_insts (e_w st)) = [] /\
+   Forall (fun s => s = IAwaited) (w_insts (e_w st)) /\ c_start_awaited (e_c st) = true /\
+   a_lines (e_a st) = flat_map shot_spec (w_reported (e_w st)) /\
+   Permutation (w_reported (e_w st)) (w_fired (e_w st)) /\
+   length (a_lines (e_a st)) = fired_requests st).
+Proof. exact engine_one_sample_per_fired_request. Qed.
+Print Assumptions C10_engine_one_sample_per_fired_request.
+
+(* once the aggregator has returned it stays so: the results above are final *)
+Theorem C10_engine_results_final : forall ammo tostart evs st evs2 st2,
+  erun false (einit ammo tostart) evs = Some st -> a_running (e_a st) = false ->
+  erun false st evs2 = Some st2 -> a_running (e_a st2) = false.
+Proof. exact engine_results_final. Qed.
+Print Assumptions C10_engine_results_final.
+
+(* the statement is false of an await loop that cancels the RUN (not only the instance start) when an instance
+   comes back "out of ammo" while instances are still being started: one ammo, two instances, a slow target -
+   the request is fired and its sample reported, the pool ends with everything awaited, the results are empty *)
+Theorem C10_engine_cancel_run_at_out_of_ammo_refuted :
+  exists st, erun true (einit [lost_witness_shot] 5) lost_witness_trace = Some st /\
+             eover st = true /\ Forall (fun s => s = IAwaited) (w_insts (e_w st)) /\
+             fired_requests st = 1%nat /\ a_lines (e_a st) = [] /\
+             erun false (einit [lost_witness_shot] 5) lost_witness_trace = None.
+Proof. exact engine_cancel_run_loses_requests. Qed.
+Print Assumptions C10_engine_cancel_run_at_out_of_ammo_refuted.
+
+(* non-vacuity: the slow-target trace of the harness (4 instances, 3 ammo) is a complete run with all three lines *)
+Example C10_engine_example :
+  let shots := [lost_witness_shot; ShGrpc [103] (GCalled 14); lost_witness_shot] in
+  slow_run_lines false shots = flat_map shot_spec shots /\ slow_run_over false shots = true /\
+  slow_run_lines true shots = [] /\ slow_run_over true shots = true.
+Proof. exact engine_example_slow. Qed.
 
 (* non-vacuity *)
 Example C10_shoot_example :
